@@ -154,3 +154,14 @@ mut("c04-derivative-indexing-not-forwarded", "C04", "_spectral.py", "    derivat
 mut("c04-incompressible-indexing-not-forwarded", "C04", "_spectral.py", "        num_spatial_dims, 1.0, num_points, indexing=indexing\n", "        num_spatial_dims, 1.0, num_points\n", "make_incompressible(indexing='xy') projects with transposed wavenumbers")
 mut("c15-interpolator-wavenumber-indexing", "C15", "_interpolation.py", "            self.num_points,\n            indexing=indexing,\n        )\n\n    def __call__", "            self.num_points,\n        )\n\n    def __call__", "FourierInterpolator(indexing='xy') pairs query coordinates with the wrong axis")
 ben("c15-interpolator-scaling-indexing", "C15", "_interpolation.py", "                mode=\"reconstruction\",\n                indexing=indexing,\n", "                mode=\"reconstruction\",\n", "the scaling array is a product of per-axis factors with equal leading axes: indexing does not change it")
+
+# ------------------------------------------------------------------------------------------ seeded wave 4 lessons
+mut("c03-zero-fix-last-axis-only", "C03", "nonlin_fun/_gradient_norm.py", "        return f - jnp.mean(f)", "        return f - jnp.mean(f, axis=-1, keepdims=True)", "mean removed along the last axis only: all k_last = 0 modes wiped (seeded S22)")
+ben("c03-zero-fix-nested-means", "C03", "nonlin_fun/_gradient_norm.py", "        return f - jnp.mean(f)", "        m = f\n        for _ in range(f.ndim):\n            m = jnp.mean(m, axis=-1)\n        return f - m", "global mean as nested per-axis means")
+ben("c03-norm-squared", "C03", "nonlin_fun/_gradient_norm.py", "u_gradient_norm_squared = jnp.sum(u_gradient**2, axis=1)", "u_gradient_norm_squared = jnp.linalg.norm(u_gradient, axis=1) ** 2", "same value (the derivative is what breaks: C07)")
+mut("c07-norm-squared", "C07", "nonlin_fun/_gradient_norm.py", "u_gradient_norm_squared = jnp.sum(u_gradient**2, axis=1)", "u_gradient_norm_squared = jnp.linalg.norm(u_gradient, axis=1) ** 2", "sqrt of a state-dependent sum of squares: NaN derivative at constant states (seeded S19)")
+mut("c07-sqrt-square", "C07", "nonlin_fun/_convection.py", "        u = self.ifft(u_hat)\n        nabla_u = self.ifft(self.derivative_operator * u_hat)", "        u = self.ifft(u_hat)\n        u = jnp.sqrt(u**2 + 0.0 * u)\n        nabla_u = self.ifft(self.derivative_operator * u_hat)", "sqrt of the squared state (|u|): derivative undefined at u = 0")
+ben("c07-sqrt-geometry", "C07", "stepper/_wave.py", "jnp.sqrt(2)", "jnp.sqrt(2.0)", "sqrt of a constant", count=4)
+mut("c04-ifft-infer-last-axis", "C04", "_spectral.py", "            num_points = field_hat.shape[-2]", "            num_points = 2 * (field_hat.shape[-1] - 1)", "inferred num_points wrong for odd N (seeded S27)")
+mut("c18-offset-row", "C18", "ic/_truncated_fourier_series.py", "        noise_hat = (\n            noise_hat.flatten()\n            # the mean mode of the unnormalized rfft is the mean times N^d\n            .at[0]\n            .set(offset * num_points**self.num_spatial_dims)\n            .reshape(fourier_noise_shape)\n        )", "        noise_hat = noise_hat.at[0, 0].set(\n            offset * num_points**self.num_spatial_dims\n        )", "offset written into the whole k_0 = 0 row (seeded S26)")
+ben("c18-offset-full-index", "C18", "ic/_truncated_fourier_series.py", "        noise_hat = (\n            noise_hat.flatten()\n            # the mean mode of the unnormalized rfft is the mean times N^d\n            .at[0]\n            .set(offset * num_points**self.num_spatial_dims)\n            .reshape(fourier_noise_shape)\n        )", "        noise_hat = noise_hat.at[(0,) * noise_hat.ndim].set(\n            offset * num_points**self.num_spatial_dims\n        )", "mean mode addressed by a full zero index")
